@@ -776,8 +776,111 @@ def raw_bytes(hexs, n):
         return None
 
 
+# ------------------------------------------------------------------------------------------
+# round 9: LENGTH-SCALE family and ERROR-PATH (quoted value) family, see tools/props/C13_scale.py
+
+def _scale_mod():
+    """tools/props/C13_scale.py, whatever way this plug-in was loaded"""
+    import importlib.util
+    import os
+    import sys
+    if "C13_scale" in sys.modules:
+        return sys.modules["C13_scale"]
+    spec = importlib.util.spec_from_file_location("C13_scale", os.path.join(os.path.dirname(os.path.abspath(__file__)), "C13_scale.py"))
+    mod = importlib.util.module_from_spec(spec)
+    sys.modules["C13_scale"] = mod
+    spec.loader.exec_module(mod)
+    return mod
+
+
+DEBUG_MAX_N = 256          # the debug build (collects at every allocation) runs the ladder up to this size; release runs all of it
+
+
+def r9_run_believed(SC, binary, cases):
+    """judges the cases; a case that differs is re-run ALONE (machine load / a time-out must not be believed at once)"""
+    res = SC.run_cases(binary, cases)
+    for i, r in enumerate(res):
+        if r is not None:
+            res[i] = SC.run_cases(binary, [cases[i]], timeout_ms=120000)[0]
+    return res
+
+
+def r9_violation(ctx, what, case, verdict, profile, **extra):
+    ctx.violation(what, input=case["src"] if len(case["src"]) < 4000 else case["src"][:1500] + " ...(%d bytes, full source in r9.src)... " % len(case["src"]) + case["src"][-1500:],
+                  expected=verdict["expected"], actual=verdict["actual"], operation=verdict["op"], case=case["label"], build=profile,
+                  r9={"src": case["src"], "expected": case["expected"], "ops": case["ops"], "label": case["label"], "profile": profile}, **extra)
+
+
+def run_r9(ctx):
+    SC = _scale_mod()
+    scale = SC.scale_cases(ctx.quick())
+    err_cases, n_err = SC.errpath_cases()
+    found = []                                    # (sort key, what, case, verdict, profile, extra)
+    n_ops = 0
+    for profile in ("release", "debug"):
+        binary = ctx.harness(profile)
+        sel = [c for c, n in scale if profile == "release" or n <= DEBUG_MAX_N]
+        n_ops += sum(len(c["ops"]) for c in sel)
+        res = r9_run_believed(SC, binary, sel)
+        bad = [(c, r) for c, r in zip(sel, res) if r is not None]
+        by_op = {}
+        for c, r in bad:
+            k = r["op"].split(" ")[0]
+            by_op[k] = by_op.get(k, 0) + 1
+        for c, r in bad:
+            found.append(((0, len(c["src"])), "a string function differs from the byte-exact reference on a LONG input (length-scale family: %s)" % c["label"],
+                          c, r, profile, {"failing_programs_in_family": len(bad), "first_differing_operation_counts": by_op}))
+        n_ops += n_err
+        res = r9_run_believed(SC, binary, err_cases)
+        badp = [c for c, r in zip(err_cases, res) if r is not None]
+        # a program with a difference is split into its probes (a panic hides the probes after it)
+        singles = []
+        for c in badp[:12]:
+            lines = c["src"].split("\n")
+            exp = c["expected"]
+            cuts = [i for i, x in enumerate(exp) if x.startswith("@@")] + [len(exp)]
+            for k, desc in enumerate(c["ops"]):
+                P = SC.Prog(desc, [])
+                P.lines = ['print("@@0");', lines[2 * k + 1]]
+                P.expected = ["@@0"] + exp[cuts[k] + 1:cuts[k + 1]]
+                P.ops = [desc]
+                singles.append(P.case())
+        if singles:
+            res1 = r9_run_believed(SC, binary, singles)
+            bad1 = [(c, r) for c, r in zip(singles, res1) if r is not None]
+            sites = {}
+            for c, r in bad1:
+                k = c["label"].split(" <- ")[0]
+                sites[k] = sites.get(k, 0) + 1
+            for c, r in bad1:
+                found.append(((1, len(c["src"])), "an error message that quotes the offending value is not the documented error (error-path family: %s)" % c["label"],
+                              c, r, profile, {"failing_probes_found": len(bad1), "failing_programs": len(badp), "failing_probes_per_site": sites}))
+            if badp and not bad1:
+                c = badp[0]
+                r = [x for x in res if x is not None][0]
+                found.append(((1, len(c["src"])), "error-path family: a program of probes differs but none of its probes alone does (%s)" % c["label"], c, r, profile, {}))
+        if found and profile == "release":
+            break                                  # the debug pass would only repeat it
+    found.sort(key=lambda f: f[0])
+    # smallest scale witness, smallest error-path witnesses; at most 4 in all
+    picked = [f for f in found if f[0][0] == 0][:2] + [f for f in found if f[0][0] == 1][:2]
+    for _, what, c, r, profile, extra in picked:
+        r9_violation(ctx, what, c, r, profile, **extra)
+    return {"r9_scale_programs": len(scale), "r9_scale_ladder": SC.POW + SC.BEYOND, "r9_scale_operations_checked": n_ops - 2 * n_err if not found else n_ops,
+            "r9_errpath_probes": n_err, "r9_errpath_sites": [s[0] for s in SC.SITES], "r9_errpath_value_lengths": SC.LADDER_FULL,
+            "r9_failing": len(found), "r9_evaluations": n_ops}
+
+
 def run(ctx):
     quick = ctx.quick()
+    if ctx.replay_only and "r9" in ctx.replay_only:
+        SC = _scale_mod()
+        c = ctx.replay_only["r9"]
+        v = r9_run_believed(SC, ctx.harness(c.get("profile", "release")), [c])[0]
+        if v is not None:
+            r9_violation(ctx, "replay: " + ctx.replay_only.get("what", ""), c, v, c.get("profile", "release"))
+        ctx.cov.update({"evaluations": len(c["ops"]), "distinct_nontrivial": 0, "rule": "replay of one round-9 program", "samples": [c["label"]]})
+        return
     if ctx.replay_only and "escape" in ctx.replay_only:
         n = check_escapes(ctx, ctx.harness("debug"))
         ctx.cov.update({"evaluations": n, "distinct_nontrivial": 0, "rule": "replay of the escape table", "samples": [ctx.replay_only["escape"]]})
@@ -791,6 +894,7 @@ def run(ctx):
     probes = [p for g in groups for p in g.probes()]
     combos, nprinted, nsample, n_viol = check(ctx, groups, "sweep")
     n_esc = check_escapes(ctx, ctx.harness("debug"))
+    r9 = run_r9(ctx)
     per_fn = {}
     for p in probes:
         per_fn[p.fn] = per_fn.get(p.fn, 0) + 1
@@ -824,6 +928,15 @@ def run(ctx):
         "failing_probes": n_viol,
         "samples": [{"snippet": p.body(), "shape": list(p.shape), "wire": p.wire()} for p in pick],
     })
+    ctx.cov["evaluations"] += r9["r9_evaluations"]
+    ctx.cov.update(r9)
+    ctx.cov["rule"] += (
+        ".  ROUND 9 (counted in evaluations, not in distinct_nontrivial): LENGTH-SCALE family - byte lengths around every power of two 16..8192 and "
+        "1000/10000/65536/100000 with a 2-/3-/4-byte character starting at n-8..n+1 (straddling n, every offset mod 8), total lengths n-2..n+2 ending in "
+        "a multi-byte character, and dense all-multi-byte strings in every alignment, through every string function and conversion, oracle = byte-exact "
+        "reference on the same input / closed forms (release build: all sizes, debug build: n <= %d); ERROR-PATH family - every message of the string/"
+        "index code that quotes a value x offending values whose printed form is 8..4200 bytes of 2-/3-/4-byte characters in every alignment "
+        "(bare strings, vec/tuple/nested vec/hashmap key/hashmap value), oracle = message template filled with the Display form" % DEBUG_MAX_N)
 
 
 def search(ctx):
